@@ -23,16 +23,26 @@ type S struct {
 }
 
 type Prop struct {
-	Key string
-	V   *S
+	Key      string // for a shortcut property: the name of the user type ("@ty3"), written without quotes
+	V        *S
+	Shortcut bool // key written as a reference to a string user type: the property's name is that type's example
 }
 
 // Rule is one entry of a rule annotation, in the order written.
 type Rule struct {
-	Name   string   // optional min max minLength nullable enum type allOf
-	Val    string   // scalar value as written (true, 5, "@t"); for enum lists see List; for enum by name the name
+	Name   string   // optional nullable const min max exclusiveMinimum exclusiveMaximum precision minLength maxLength regex minItems maxItems additionalProperties enum type allOf or
+	Val    string   // scalar value as written (true, 5, "@t"); for enum lists see List/Raw; for enum by name the name
 	List   []string // enum: ["a","b"]
+	Raw    []string // enum with literals of any scalar kind, each as written: "a", 1, 2.5, null, true
 	ByName bool     // enum: @e
+	Or     []OrItem // or: ["integer", "@t"] or or: [{type: "integer", min: 0}, ...]
+}
+
+// OrItem is one alternative of an "or" rule.
+type OrItem struct {
+	Type string // "integer", "@t", ...
+	Sub  []Rule // nil: the alternative is written as a bare type name; otherwise as an object {type: "...", sub rules}
+	Obj  bool   // written as an object even without sub rules
 }
 
 func (s *S) rule(name string) *Rule {
@@ -52,13 +62,34 @@ func (r Rule) text() string {
 		if r.ByName {
 			return "enum: " + r.Val
 		}
+		if r.Raw != nil {
+			return "enum: [" + strings.Join(r.Raw, ", ") + "]"
+		}
 		var q []string
 		for _, v := range r.List {
 			q = append(q, fmt.Sprintf("%q", v))
 		}
 		return "enum: [" + strings.Join(q, ", ") + "]"
-	case "type", "allOf":
+	case "or":
+		var q []string
+		for _, it := range r.Or {
+			if it.Sub == nil && !it.Obj {
+				q = append(q, fmt.Sprintf("%q", it.Type))
+				continue
+			}
+			parts := []string{fmt.Sprintf("type: %q", it.Type)}
+			for _, sr := range it.Sub {
+				parts = append(parts, sr.text())
+			}
+			q = append(q, "{"+strings.Join(parts, ", ")+"}")
+		}
+		return "or: [" + strings.Join(q, ", ") + "]"
+	case "type", "allOf", "regex":
 		return fmt.Sprintf("%s: %q", r.Name, r.Val)
+	case "additionalProperties":
+		if r.Val != "true" && r.Val != "false" {
+			return fmt.Sprintf("%s: %q", r.Name, r.Val)
+		}
 	}
 	return r.Name + ": " + r.Val
 }
@@ -125,7 +156,11 @@ func (s *S) lines(indent, unit, prefix, suffix string, out *[]string) {
 			if i == len(s.Props)-1 {
 				suf = ""
 			}
-			p.V.lines(indent+unit, unit, fmt.Sprintf("%q: ", p.Key), suf, out)
+			if p.Shortcut {
+				p.V.lines(indent+unit, unit, p.Key+": ", suf, out)
+			} else {
+				p.V.lines(indent+unit, unit, fmt.Sprintf("%q: ", p.Key), suf, out)
+			}
 		}
 		*out = append(*out, indent+"}"+suffix)
 	case "arr":
@@ -148,19 +183,73 @@ func (s *S) lines(indent, unit, prefix, suffix string, out *[]string) {
 // J is a plain JSON value: map[string]interface{}, []interface{}, string, bool.
 type J = interface{}
 
+// litImage is the image of one literal of an enum list.
+func litImage(lit string) map[string]J {
+	switch {
+	case strings.HasPrefix(lit, "\""):
+		var v string
+		_ = json.Unmarshal([]byte(lit), &v)
+		return map[string]J{"tokenType": "string", "scalarValue": v}
+	case lit == "null":
+		return map[string]J{"tokenType": "null", "scalarValue": "null"}
+	case lit == "true" || lit == "false":
+		return map[string]J{"tokenType": "boolean", "scalarValue": lit}
+	}
+	return map[string]J{"tokenType": "number", "scalarValue": lit}
+}
+
+func typeNameTok(v string) string {
+	if strings.HasPrefix(v, "@") {
+		return "reference"
+	}
+	return "string"
+}
+
 func ruleImage(r Rule) map[string]J {
 	m := map[string]J{"key": r.Name}
 	switch r.Name {
-	case "optional", "nullable":
+	case "optional", "nullable", "const", "exclusiveMinimum", "exclusiveMaximum":
 		m["tokenType"], m["scalarValue"] = "boolean", r.Val
-	case "min", "max", "minLength":
+	case "min", "max", "minLength", "maxLength", "precision", "minItems", "maxItems":
 		m["tokenType"], m["scalarValue"] = "number", r.Val
-	case "type", "allOf":
+	case "type":
+		m["tokenType"], m["scalarValue"] = typeNameTok(r.Val), r.Val
+	case "allOf":
 		m["tokenType"], m["scalarValue"] = "reference", r.Val
-	case "enum":
-		if r.ByName {
-			m["tokenType"], m["scalarValue"] = "reference", r.Val
+	case "regex":
+		m["tokenType"], m["scalarValue"] = "string", r.Val
+	case "additionalProperties":
+		if r.Val == "true" || r.Val == "false" {
+			m["tokenType"], m["scalarValue"] = "boolean", r.Val
 		} else {
+			// the implementation reports the value of this rule as a string also for "@type" values
+			m["tokenType"], m["scalarValue"] = "string", r.Val
+		}
+	case "or":
+		var ch []J
+		for _, it := range r.Or {
+			if it.Sub == nil && !it.Obj {
+				ch = append(ch, map[string]J{"tokenType": typeNameTok(it.Type), "scalarValue": it.Type})
+				continue
+			}
+			sub := []J{map[string]J{"key": "type", "tokenType": typeNameTok(it.Type), "scalarValue": it.Type}}
+			for _, sr := range it.Sub {
+				sub = append(sub, ruleImage(sr))
+			}
+			ch = append(ch, map[string]J{"tokenType": "object", "children": sub})
+		}
+		m["tokenType"], m["children"] = "array", ch
+	case "enum":
+		switch {
+		case r.ByName:
+			m["tokenType"], m["scalarValue"] = "reference", r.Val
+		case r.Raw != nil:
+			var ch []J
+			for _, v := range r.Raw {
+				ch = append(ch, litImage(v))
+			}
+			m["tokenType"], m["children"] = "array", ch
+		default:
 			var ch []J
 			for _, v := range r.List {
 				ch = append(ch, map[string]J{"tokenType": "string", "scalarValue": v})
@@ -214,7 +303,11 @@ func (s *S) Image(env *TypeEnv, key *string, arrayItem bool) map[string]J {
 		}
 		for _, p := range s.Props {
 			k := p.Key
-			children = append(children, p.V.Image(env, &k, false))
+			im := p.V.Image(env, &k, false)
+			if p.Shortcut {
+				im["isKeyUserTypeRef"] = true
+			}
+			children = append(children, im)
 		}
 		m["children"] = children
 	case "arr":
@@ -239,11 +332,17 @@ func (s *S) Image(env *TypeEnv, key *string, arrayItem bool) map[string]J {
 	case "or":
 		m["tokenType"], m["type"], m["scalarValue"] = "reference", "mixed", strings.Join(s.Or, s.sep())
 	}
-	if r := s.rule("enum"); r != nil {
-		m["type"] = "enum"
+	if r := s.rule("precision"); r != nil && s.K == "float" {
+		m["type"] = "decimal"
 	}
 	if r := s.rule("type"); r != nil {
 		m["type"] = r.Val
+	}
+	if r := s.rule("or"); r != nil {
+		m["type"] = "mixed"
+	}
+	if r := s.rule("enum"); r != nil {
+		m["type"] = "enum"
 	}
 	return m
 }
@@ -261,8 +360,18 @@ func (s *S) UsedTypes(env *TypeEnv) []string {
 }
 
 func (s *S) usedTypes(env *TypeEnv, set map[string]bool) {
-	if r := s.rule("type"); r != nil {
+	if r := s.rule("type"); r != nil && strings.HasPrefix(r.Val, "@") {
 		set[r.Val] = true
+	}
+	if r := s.rule("additionalProperties"); r != nil && strings.HasPrefix(r.Val, "@") {
+		set[r.Val] = true
+	}
+	if r := s.rule("or"); r != nil {
+		for _, it := range r.Or {
+			if strings.HasPrefix(it.Type, "@") {
+				set[it.Type] = true
+			}
+		}
 	}
 	if r := s.rule("allOf"); r != nil {
 		set[r.Val] = true
@@ -289,6 +398,9 @@ func (s *S) usedTypes(env *TypeEnv, set map[string]bool) {
 		}
 	case "obj":
 		for _, p := range s.Props {
+			if p.Shortcut {
+				set[p.Key] = true
+			}
 			p.V.usedTypes(env, set)
 		}
 	case "arr":
@@ -296,6 +408,16 @@ func (s *S) usedTypes(env *TypeEnv, set map[string]bool) {
 			it.usedTypes(env, set)
 		}
 	}
+}
+
+// exampleKey is the property name a property has in examples.
+func (p Prop) exampleKey(env *TypeEnv) string {
+	if p.Shortcut {
+		if t := env.Types[p.Key]; t != nil && t.Schema != nil {
+			return t.Schema.Lit
+		}
+	}
+	return p.Key
 }
 
 // Example returns the expected example as a Go value; regex-typed parts are returned as RegexHole.
@@ -316,7 +438,7 @@ func (s *S) Example(env *TypeEnv, depth int) J {
 			}
 		}
 		for _, p := range s.Props {
-			m[p.Key] = p.V.Example(env, depth+1)
+			m[p.exampleKey(env)] = p.V.Example(env, depth+1)
 		}
 		return m
 	case "arr":
@@ -362,6 +484,7 @@ type schemaGen struct {
 	scalarTyp []string // names of user types whose schema is an integer scalar (usable in {type: "@x"})
 	objTypes  []string // object types with scalar properties only (usable in allOf)
 	refTypes  []string // types that may be referenced (jsight and regex)
+	strTypes  []string // string scalar types (usable as shortcut property keys)
 	enums     map[string][]string
 	enumNames []string
 	words     []string
@@ -383,7 +506,7 @@ func (g *schemaGen) scalar(allowOptional bool) *S {
 	switch g.r.Intn(9) {
 	case 0, 1:
 		s.K, s.Lit = "str", g.word()
-		switch g.r.Intn(5) {
+		switch g.r.Intn(16) {
 		case 0:
 			s.Rules = append(s.Rules, Rule{Name: "minLength", Val: fmt.Sprint(g.r.Intn(len(s.Lit) + 1))})
 		case 1:
@@ -392,18 +515,43 @@ func (g *schemaGen) scalar(allowOptional bool) *S {
 				list = []string{g.word() + "y", s.Lit}
 			}
 			s.Rules = append(s.Rules, Rule{Name: "enum", List: list})
-		case 2:
+		case 2, 3:
 			if len(g.enumNames) > 0 {
 				en := g.enumNames[g.r.Intn(len(g.enumNames))]
 				vals := g.enums[en]
 				s.Lit = vals[g.r.Intn(len(vals))]
 				s.Rules = append(s.Rules, Rule{Name: "enum", Val: en, ByName: true})
 			}
+		case 4:
+			s.Rules = append(s.Rules, Rule{Name: "maxLength", Val: fmt.Sprint(len(s.Lit) + g.r.Intn(4))})
+		case 5:
+			a, b := Rule{Name: "minLength", Val: fmt.Sprint(g.r.Intn(3))}, Rule{Name: "maxLength", Val: fmt.Sprint(len(s.Lit) + g.r.Intn(20))}
+			if g.r.Intn(2) == 0 {
+				a, b = b, a
+			}
+			s.Rules = append(s.Rules, a, b)
+		case 6:
+			s.Rules = append(s.Rules, Rule{Name: "regex", Val: []string{"^[a-z]+$", "[a-z]{2,}", "^(alpha|beta|gamma|delta|omega|kappa|sigma|theta|lambda|zeta)$"}[g.r.Intn(3)]})
+		case 7:
+			s.Rules = append(s.Rules, Rule{Name: "const", Val: []string{"true", "false"}[g.r.Intn(2)]})
+		case 8:
+			f := [][2]string{{"email", "user@example.com"}, {"uri", "https://example.com/a"}, {"date", "2021-03-04"}, {"datetime", "2021-03-04T05:06:07+00:00"}, {"uuid", "550e8400-e29b-41d4-a716-446655440000"}}[g.r.Intn(5)]
+			s.Lit = f[1]
+			s.Rules = append(s.Rules, Rule{Name: "type", Val: f[0]})
+		case 9:
+			s.Rules = append(s.Rules, Rule{Name: "type", Val: []string{"any", "string"}[g.r.Intn(2)]})
+		case 10:
+			s.Rules = append(s.Rules, Rule{Name: "enum", Raw: []string{fmt.Sprintf("%q", s.Lit), fmt.Sprint(g.r.Intn(9)), "null", "true", "2.5"}[:2+g.r.Intn(4)]})
+		case 12, 13:
+			// text that looks like something else: a dot, a number, a keyword, a reference
+			s.Lit = []string{g.word() + "." + g.word(), "./" + g.word(), "1.5", "12", "true", "null", "@" + g.word(), "v1.2", "a.b.c", "GET /x", "{}", "[1]"}[g.r.Intn(12)]
+		case 11:
+			s.Rules = append(s.Rules, Rule{Name: "or", Or: []OrItem{{Type: "string", Sub: []Rule{{Name: "maxLength", Val: fmt.Sprint(len(s.Lit) + 1)}}}, {Type: "integer", Obj: true}}})
 		}
 	case 2, 3:
 		n := g.r.Intn(100)
 		s.K, s.Lit = "int", fmt.Sprint(n)
-		switch g.r.Intn(5) {
+		switch g.r.Intn(14) {
 		case 0:
 			s.Rules = append(s.Rules, Rule{Name: "min", Val: fmt.Sprint(n - g.r.Intn(5))})
 		case 1:
@@ -412,12 +560,45 @@ func (g *schemaGen) scalar(allowOptional bool) *S {
 			if len(g.scalarTyp) > 0 {
 				s.Lit = "50"
 				s.Rules = append(s.Rules, Rule{Name: "type", Val: g.scalarTyp[g.r.Intn(len(g.scalarTyp))]})
+				if g.r.Intn(3) == 0 {
+					s.Rules = append(s.Rules, Rule{Name: "nullable", Val: "true"})
+				}
 			}
 		case 3:
 			s.Rules = append(s.Rules, Rule{Name: "nullable", Val: "true"})
+		case 4:
+			s.Rules = append(s.Rules, Rule{Name: "min", Val: fmt.Sprint(n - 1 - g.r.Intn(3))}, Rule{Name: "exclusiveMinimum", Val: []string{"true", "true", "false"}[g.r.Intn(3)]})
+		case 5:
+			s.Rules = append(s.Rules, Rule{Name: "max", Val: fmt.Sprint(n + 1 + g.r.Intn(3))}, Rule{Name: "exclusiveMaximum", Val: []string{"true", "true", "false"}[g.r.Intn(3)]})
+		case 6:
+			items := []OrItem{{Type: "integer"}, {Type: "string"}}
+			if len(g.scalarTyp) > 0 && g.r.Intn(2) == 0 {
+				s.Lit = "50"
+				items[0].Type = g.scalarTyp[g.r.Intn(len(g.scalarTyp))]
+			}
+			if g.r.Intn(2) == 0 {
+				items[0], items[1] = items[1], items[0]
+			}
+			s.Rules = append(s.Rules, Rule{Name: "or", Or: items})
+		case 7:
+			s.Rules = append(s.Rules, Rule{Name: "or", Or: []OrItem{{Type: "integer", Sub: []Rule{{Name: "min", Val: "0"}}}, {Type: "string", Sub: []Rule{{Name: "maxLength", Val: "3"}}}, {Type: "boolean", Obj: true}}[:2+g.r.Intn(2)]})
+		case 8:
+			s.Rules = append(s.Rules, Rule{Name: "const", Val: "true"})
+		case 9:
+			s.Rules = append(s.Rules, Rule{Name: "enum", Raw: []string{fmt.Sprint(n), fmt.Sprint(n + 1), "\"zz\"", "null"}[:2+g.r.Intn(3)]})
+		case 10:
+			s.Rules = append(s.Rules, Rule{Name: "type", Val: []string{"integer", "any"}[g.r.Intn(2)]})
 		}
 	case 4:
 		s.K, s.Lit = "float", fmt.Sprintf("%d.%d", g.r.Intn(50), 1+g.r.Intn(9))
+		switch g.r.Intn(6) {
+		case 0:
+			s.Rules = append(s.Rules, Rule{Name: "precision", Val: fmt.Sprint(1 + g.r.Intn(3))})
+		case 1:
+			s.Rules = append(s.Rules, Rule{Name: "type", Val: "decimal"}, Rule{Name: "precision", Val: fmt.Sprint(1 + g.r.Intn(3))})
+		case 2:
+			s.Rules = append(s.Rules, Rule{Name: "type", Val: "float"}, Rule{Name: "min", Val: "0"})
+		}
 	case 5:
 		s.K, s.Lit = "bool", []string{"true", "false"}[g.r.Intn(2)]
 	case 6:
@@ -453,6 +634,16 @@ func (g *schemaGen) object(depth int, allowAllOf bool) *S {
 		s.Rules = append(s.Rules, Rule{Name: "allOf", Val: g.objTypes[g.r.Intn(len(g.objTypes))]})
 		// inherited keys are b0..b9 – own keys never collide with them
 	}
+	if g.r.Intn(7) == 0 {
+		vals := []string{"true", "false", "string", "integer", "any", "null", "boolean", "float", "array", "object"}
+		vals = append(vals, g.scalarTyp...)
+		s.Rules = append(s.Rules, Rule{Name: "additionalProperties", Val: vals[g.r.Intn(len(vals))]})
+	}
+	if len(g.strTypes) > 0 && g.r.Intn(6) == 0 {
+		// a property whose key is a reference to a string type: its name is that type's example ("sk<i>", never a generated key)
+		v := g.scalar(true)
+		s.Props = append(s.Props, Prop{Key: g.strTypes[g.r.Intn(len(g.strTypes))], V: v, Shortcut: true})
+	}
 	n := 1 + g.r.Intn(4)
 	for i := 0; i < n; i++ {
 		key := fmt.Sprintf("%s%d", g.word()[:2], i)
@@ -469,7 +660,7 @@ func (g *schemaGen) object(depth int, allowAllOf bool) *S {
 		default:
 			v = g.scalar(true)
 		}
-		s.Props = append(s.Props, Prop{key, v})
+		s.Props = append(s.Props, Prop{Key: key, V: v})
 	}
 	return s
 }
@@ -477,6 +668,16 @@ func (g *schemaGen) object(depth int, allowAllOf bool) *S {
 func (g *schemaGen) array(depth int) *S {
 	s := &S{K: "arr"}
 	n := 1 + g.r.Intn(2)
+	switch g.r.Intn(8) {
+	case 0:
+		s.Rules = append(s.Rules, Rule{Name: "minItems", Val: fmt.Sprint(g.r.Intn(n + 1))})
+	case 1:
+		s.Rules = append(s.Rules, Rule{Name: "maxItems", Val: fmt.Sprint(n + g.r.Intn(3))})
+	case 2:
+		s.Rules = append(s.Rules, Rule{Name: "minItems", Val: fmt.Sprint(g.r.Intn(n + 1))}, Rule{Name: "maxItems", Val: fmt.Sprint(n + g.r.Intn(3))})
+	case 3:
+		s.Rules = append(s.Rules, Rule{Name: "type", Val: "array"})
+	}
 	for i := 0; i < n; i++ {
 		if depth < 2 && g.r.Intn(5) == 0 {
 			s.Items = append(s.Items, g.object(depth+1, false))
@@ -496,4 +697,42 @@ func (g *schemaGen) root() *S {
 		return g.scalar(false)
 	}
 	return g.object(0, true)
+}
+
+// Features counts what a schema uses: rule names, node kinds and shortcut keys (for coverage evidence).
+func (s *S) Features(into map[string]int) {
+	if s == nil {
+		return
+	}
+	into["kind:"+s.K]++
+	for _, r := range s.Rules {
+		k := "rule:" + r.Name
+		switch {
+		case r.Name == "type" && !strings.HasPrefix(r.Val, "@"):
+			k += "=" + r.Val
+		case r.Name == "type":
+			k += "=@user"
+		case r.Name == "enum" && r.ByName:
+			k += "=@name"
+		case r.Name == "enum" && r.Raw != nil:
+			k += "=mixed-literals"
+		case r.Name == "or" && len(r.Or) > 0 && (r.Or[0].Sub != nil || r.Or[0].Obj):
+			k += "=objects"
+		case r.Name == "additionalProperties" && strings.HasPrefix(r.Val, "@"):
+			k += "=@user"
+		}
+		into[k]++
+	}
+	if s.Note != "" {
+		into["note"]++
+	}
+	for _, p := range s.Props {
+		if p.Shortcut {
+			into["shortcut-key"]++
+		}
+		p.V.Features(into)
+	}
+	for _, it := range s.Items {
+		it.Features(into)
+	}
 }
